@@ -98,6 +98,13 @@ fn recv_body_inner(api: &str, head: &[u8]) -> Option<Rut> {
     }
     let req = Request::get("http://h.test/data").body(()).unwrap();
     let mut buf = vec![0u8; 1024];
+    // the head arrives line by line (not for 3xx heads: what happens inside those after the Location line is C05's KF1)
+    let status3xx = head.windows(12).take(8).any(|w| w.starts_with(b"HTTP/1.") && w[9] == b'3');
+    let cuts: Vec<usize> = if v % 2 == 0 && !status3xx {
+        (1..head.len().saturating_sub(2)).filter(|&i| head[i - 1] == b'\n' && i >= 12).collect()
+    } else {
+        vec![]
+    };
     if api == "flow" {
         let mut f = Flow::new(req).unwrap().proceed();
         for _ in 0..400 {
@@ -110,6 +117,10 @@ fn recv_body_inner(api: &str, head: &[u8]) -> Option<Rut> {
             SendRequestResult::RecvResponse(f) => f,
             _ => panic!("harness: expected RecvResponse"),
         };
+        for &c in &cuts {
+            let (n, r) = f.try_response(&head[..c]).unwrap();
+            assert!(r.is_none() && n == 0, "harness: incomplete head answered");
+        }
         let (n, r) = f.try_response(head).unwrap();
         assert!(r.is_some() && n == head.len(), "harness: head not accepted");
         match f.proceed().unwrap() {
@@ -125,6 +136,9 @@ fn recv_body_inner(api: &str, head: &[u8]) -> Option<Rut> {
             c.write(&mut buf).unwrap();
         }
         let mut c = c.into_receive().unwrap();
+        for &cut in &cuts {
+            assert!(c.try_response(&head[..cut]).unwrap().is_none(), "harness: incomplete head answered");
+        }
         let (n, _) = c.try_response(head).unwrap().unwrap();
         assert!(n == head.len());
         c.into_body().unwrap().map(Rut::Call)
@@ -316,6 +330,8 @@ fn chunk_head(k: u64) -> Vec<u8> {
         4 => b"HTTP/1.1 206 Partial Content\r\nTransfer-Encoding: gzip, chunked\r\nContent-Length: 3\r\n\r\n".to_vec(),
         5 => b"HTTP/1.1 500 Oops\r\nConnection: close\r\nTransfer-Encoding: chunked\r\n\r\n".to_vec(),
         6 => b"\r\nHTTP/1.1 200 OK\r\nTransfer-Encoding: chunked\r\n\r\n".to_vec(),
+        // a proxy refusing a CONNECT with an error page (received on a CONNECT flow, see recv_body_inner)
+        7 => b"HTTP/1.1 407 Proxy Authentication Required\r\nProxy-Authenticate: Basic realm=\"p\"\r\nTransfer-Encoding: chunked\r\n\r\n".to_vec(),
         _ => CHUNK_HEAD.to_vec(),
     }
 }
@@ -691,7 +707,9 @@ pub fn c07(o: &Opts, t: &mut Tracer) -> Value {
 
 fn c08_length(t: &mut Tracer, api: &str, n: u64, arrive: &[usize], outs: &[usize], body: &[u8], tail: &[u8]) {
     // the same length framing under different response versions / neighbouring header fields
-    let head = match ((n % 1000) as usize + arrive.len() + outs.len()) % 13 {
+    let head = match ((n % 1000) as usize + arrive.len() + outs.len()) % 14 {
+        // a Location on a response that is no redirect
+        13 => format!("HTTP/1.1 201 Created\r\nLocation: /made/17\r\nContent-Length: {}\r\nX-After: 1\r\n\r\n", n),
         9 => format!("HTTP/1.1 205 Reset Content\r\nContent-Length: {}\r\n\r\n", n),
         10 => format!("HTTP/1.1 206 Partial Content\r\nX-Cache:\r\nVary: \r\nContent-Length: {}\r\n\r\n", n),
         // empty lines ahead of the status line (left over after a previous body) belong to the head that follows
